@@ -219,6 +219,10 @@ OuterLoop:
 			if !isSamePolicy(rl.spec, previousGeneration.spec, url.PolicyRef) {
 				continue
 			}
+			if prev.rl == nil {
+				// already handed over to an identical rule of this generation
+				continue
+			}
 
 			url.Init()
 			rl.bindPolicyToURL(url)
